@@ -1,70 +1,203 @@
 /-
 Lemmas about the extended core engine model, part 9: the upper layers — requests for a set of keys
-(`queryEach`), `repair_transitive_firewall_callees`, backward projection (nothing to re-run without
-projection nodes), the `RepairFirewall` caller (`queryF_spec`) and the user (`queryU_spec`,
-`query_spec`).
+(`queryEach`), `repair_transitive_firewall_callees`, backward projection (`backProject_spec`), the
+`BackwardProjectionPropagation` caller (`queryB_spec`), the `RepairFirewall` caller (`queryF_spec`)
+and the user (`queryU_spec`).
 -/
 import QbiceVerif.Lemmas.EngineCoreFw8
 namespace Qbice.CoreFw
 open Qbice.Core (Prog Err Write SetRes allVals evalProg applyWorld Sat TraceOK)
 
-theorem queryEach_spec {p : Program} {q : Q} {b : Nat} (hq : QSpec p q b) :
-    ∀ (ks : List Key) (s : St), (∀ f, f ∈ ks → f < b) → Inv p s →
-      Sat (queryEach q ks s) (fun s' => Inv p s' ∧ Frame p s s' ∧ Touches b s s') := by
+/-- post-condition of a request of the upper layers (nodes above the key may change: backward
+    projection) -/
+def UPost (p : Program) (k : Key) (s : St) (r : Val × St) : Prop :=
+  Inv p r.2 ∧ Frame p s r.2 ∧ cur p s k = some r.1 ∧
+    ∃ n, r.2.nodes k = some n ∧ n.value = r.1 ∧ n.lastVerified = r.2.epoch
+
+theorem QPost.uPost {p : Program} {k : Key} {s : St} {r : Val × St} (h : QPost p k s r) : UPost p k s r :=
+  ⟨h.1, h.2.1, h.2.2.2.1, h.2.2.2.2⟩
+
+/-- pending backward projections of keys below `b` are not cleared -/
+def NoClearBelow (b : Nat) (s s' : St) : Prop :=
+  ∀ x n, x < b → s.nodes x = some n → n.pendingBP = true → ∃ n', s'.nodes x = some n' ∧ n'.pendingBP = true
+
+theorem NoClearBelow.refl (b : Nat) (s : St) : NoClearBelow b s s := fun _ n _ h hp => ⟨n, h, hp⟩
+
+theorem NoClearBelow.trans {b : Nat} {s s' s'' : St} (f : NoClearBelow b s s') (g : NoClearBelow b s' s'') :
+    NoClearBelow b s s'' := fun x n hx h hp => by
+  obtain ⟨n', h', hp'⟩ := f x n hx h hp
+  exact g x n' hx h' hp'
+
+theorem NoClearBelow.mono {b b' : Nat} {s s' : St} (f : NoClearBelow b s s') (h : b' ≤ b) :
+    NoClearBelow b' s s' := fun x n hx => f x n (Nat.lt_of_lt_of_le hx h)
+
+theorem Touches.noClear {b c : Nat} {s s' : St} (t : Touches b s s') : NoClearBelow c s s' :=
+  fun x n _ h hp => t.2 x n h hp
+
+theorem queryEach_spec {p : Program} {q : Q} {P : Key → St → Prop} {R : St → St → Prop}
+    (hR0 : ∀ s, R s s) (hRt : ∀ s s' s'', R s s' → R s' s'' → R s s'')
+    (hq : ∀ d s, Inv p s → P d s → Sat (q d s) (fun r => UPost p d s r ∧ R s r.2))
+    (hP : ∀ d s s', P d s → Inv p s → Inv p s' → Frame p s s' → R s s' → P d s') :
+    ∀ (ks : List Key) (s : St), (∀ f, f ∈ ks → P f s) → Inv p s →
+      Sat (queryEach q ks s) (fun s' => Inv p s' ∧ Frame p s s' ∧ R s s' ∧ ∀ f, f ∈ ks → Verified s' f) := by
   intro ks
   induction ks with
-  | nil => intro s _ inv; exact ⟨inv, Frame.refl p s, Touches.refl _ s⟩
+  | nil => intro s _ inv; exact ⟨inv, Frame.refl p s, hR0 s, fun _ h => by cases h⟩
   | cons c rest ih =>
     intro s hb inv
-    have hc : c < b := hb c (List.mem_cons_self ..)
-    have hqc := hq c hc s inv
+    have hqc := hq c s inv (hb c (List.mem_cons_self ..))
     simp only [queryEach]
     cases hr : q c s with
     | error e => rw [hr] at hqc; simpa [Sat] using hqc
     | ok r =>
       obtain ⟨v, s1⟩ := r
       rw [hr] at hqc
-      obtain ⟨i1, f1, t1, _⟩ := hqc
-      simp only at i1 f1 t1 ⊢
-      refine (ih s1 (fun f hf => hb f (List.mem_cons_of_mem _ hf)) i1).mono ?_
-      rintro s2 ⟨i2, f2, t2⟩
-      exact ⟨i2, f1.trans f2, (t1.mono (by komega)).trans t2⟩
+      obtain ⟨⟨i1, f1, _, n1, hn1, _, hv1⟩, r1⟩ := hqc
+      simp only at i1 f1 hn1 hv1 r1 ⊢
+      refine (ih s1 (fun f hf => hP f s s1 (hb f (List.mem_cons_of_mem _ hf)) inv i1 f1 r1) i1).mono ?_
+      rintro s2 ⟨i2, f2, r2, hv2⟩
+      refine ⟨i2, f1.trans f2, hRt _ _ _ r1 r2, ?_⟩
+      intro f hf
+      simp only [List.mem_cons] at hf
+      rcases hf with rfl | hf
+      · exact f2.verified ⟨n1, hn1, hv1⟩
+      · exact hv2 f hf
 
-theorem repairTfc_spec {p : Program} {qf : Q} {k : Key} (hq : QSpec p qf k) {s : St} (inv : Inv p s) :
-    Sat (repairTfc qf k s) (fun s' => Inv p s' ∧ Frame p s s' ∧ Touches k s s') := by
+theorem repairTfc_spec {p : Program} {qf : Q} {k : Key}
+    (hq : ∀ d, d < k → ∀ s, Inv p s → Sat (qf d s) (UPost p d s)) {s : St} (inv : Inv p s) :
+    Sat (repairTfc qf k s) (fun s' => Inv p s' ∧ Frame p s s') := by
   simp only [repairTfc]
   cases hn : s.nodes k with
-  | none => exact ⟨inv, Frame.refl p s, Touches.refl _ s⟩
+  | none => exact ⟨inv, Frame.refl p s⟩
   | some n =>
     simp only
     split
-    · exact ⟨inv, Frame.refl p s, Touches.refl _ s⟩
-    · exact queryEach_spec hq n.tfc s (fun f hf => inv.tfcDown k n hn f hf) inv
+    · exact ⟨inv, Frame.refl p s⟩
+    · refine (queryEach_spec (P := fun d _ => d < k) (R := fun _ _ => True) (fun _ => trivial)
+        (fun _ _ _ _ _ => trivial) (fun d s' i h => (hq d h s' i).mono (fun r hr => ⟨hr, trivial⟩))
+        (fun d _ _ h _ _ _ _ => h) n.tfc s (fun f hf => inv.tfcDown k n hn f hf) inv).mono ?_
+      rintro s' ⟨i, f, _, _⟩
+      exact ⟨i, f⟩
 
-/-- without projection nodes there is nothing above a key to re-run -/
-theorem projsAbove_nil {p : Program} {s : St} (inv : Inv p s) (k : Key) : projsAbove p s k = [] := by
-  simp only [projsAbove]
-  rw [List.filter_eq_nil_iff]
-  intro c _
-  cases hc : s.nodes c with
-  | none => simp
-  | some n => simp [inv.noProj c n hc]
+theorem mem_projsAbove {p : Program} {s : St} {k c : Key} :
+    c ∈ projsAbove p s k ↔ c < p.length ∧ ∃ n o, s.nodes c = some n ∧ n.kind = .projection ∧ (k, o) ∈ n.deps := by
+  simp only [projsAbove, List.mem_filter, List.mem_range]
+  constructor
+  · rintro ⟨hlt, h⟩
+    refine ⟨hlt, ?_⟩
+    cases hc : s.nodes c with
+    | none => simp [hc] at h
+    | some n =>
+      simp only [hc, Bool.and_eq_true, decide_eq_true_eq] at h
+      obtain ⟨o, hm⟩ := (Qbice.Core.any_key_iff n.deps k).1 h.2
+      exact ⟨n, o, rfl, h.1, hm⟩
+  · rintro ⟨hlt, n, o, hn, hk, hm⟩
+    refine ⟨hlt, ?_⟩
+    simp only [hn, hk, decide_true, Bool.true_and]
+    exact (Qbice.Core.any_key_iff n.deps k).2 ⟨o, hm⟩
 
-theorem backProject_eq {p : Program} {s : St} (inv : Inv p s) (qb : Q) (k : Key) :
-    backProject qb p k s = .ok (clearPending s k) := by
-  simp [backProject, projsAbove_nil inv, queryEach]
+/-- what a `BackwardProjectionPropagation` request for `c` needs: `c` is a projection that is verified
+    or has a callee whose backward projection is pending -/
+def PreB (s : St) (c : Key) : Prop :=
+  ∃ n, s.nodes c = some n ∧ n.kind = .projection ∧
+    (n.lastVerified = s.epoch ∨ ∃ f o, (f, o) ∈ n.deps ∧ hasPending s f = true)
 
-theorem clearPending_post {p : Program} {k : Key} {s0 s : St} {v : Val} (h : QPost p k s0 (v, s)) :
-    QPost p k s0 (v, clearPending s k) := by
-  obtain ⟨i, f, t, c, n, hn, hv, hver⟩ := h
-  simp only at i f t c hn hv hver
-  have e : clearPending s k = setNode s k { n with pendingBP := false } := by
-    simp [clearPending, hn]
-  rw [e]
-  exact ⟨i.setSame (n' := { n with pendingBP := false }) hn rfl rfl rfl rfl rfl (Or.inl rfl),
-    f.trans (Frame.setSame (n' := { n with pendingBP := false }) hn rfl rfl rfl rfl rfl hver),
-    t.trans (Touches.setNode s k _), c,
-    { n with pendingBP := false }, by simp [setNode], hv, hver⟩
+/-- … and what it guarantees -/
+def BPost (p : Program) (c : Key) (s : St) (r : Val × St) : Prop :=
+  UPost p c s r ∧ NoClearBelow c s r.2
+
+theorem hasPending_noClear {b : Nat} {s s' : St} (t : NoClearBelow b s s') {f : Key} (hf : f < b)
+    (h : hasPending s f = true) : hasPending s' f = true := by
+  cases hn : s.nodes f with
+  | none => simp [hasPending, hn] at h
+  | some nf =>
+    obtain ⟨nf', hf', hp'⟩ := t f nf hf hn (by simpa [hasPending, hn] using h)
+    simp [hasPending, hf', hp']
+
+/-- `invoke_backward_projections` + `done_backward_projection` of a verified key -/
+theorem backProject_spec {p : Program} {qb : Q} {k : Key} {s : St} (inv : Inv p s)
+    {nk : Node} (hk : s.nodes k = some nk) (hv : nk.lastVerified = s.epoch) (hpk : nk.pendingBP = true)
+    (hq : projsAbove p s k = [] ∨ ∀ c s', Inv p s' → PreB s' c → Sat (qb c s') (BPost p c s')) :
+    Sat (backProject qb p k s) (fun s' => Inv p s' ∧ Frame p s s' ∧ NoClearBelow k s s') := by
+  simp only [backProject]
+  have hloop : Sat (queryEach qb (projsAbove p s k) s) (fun s' => Inv p s' ∧ Frame p s s' ∧
+      NoClearBelow (k + 1) s s' ∧ ∀ f, f ∈ projsAbove p s k → Verified s' f) := by
+    rcases hq with hnil | hq
+    · rw [hnil]
+      exact ⟨inv, Frame.refl p s, NoClearBelow.refl _ s, fun _ h => by cases h⟩
+    · refine queryEach_spec
+        (P := fun c s' => k < c ∧ hasPending s' k = true ∧ ∃ n, s'.nodes c = some n ∧
+          n.kind = .projection ∧ (n.lastVerified = s'.epoch ∨ ∃ o, (k, o) ∈ n.deps))
+        (R := NoClearBelow (k + 1)) (NoClearBelow.refl _) (fun _ _ _ => NoClearBelow.trans)
+        ?_ ?_ (projsAbove p s k) s ?_ inv
+      · rintro c s' i ⟨hlt, hpk', n, hn, hkp, hc⟩
+        have hpre : PreB s' c := by
+          refine ⟨n, hn, hkp, ?_⟩
+          rcases hc with hc | ⟨o, hm⟩
+          · exact Or.inl hc
+          · exact Or.inr ⟨k, o, hm, hpk'⟩
+        refine (hq c s' i hpre).mono ?_
+        rintro r ⟨hu, hnc⟩
+        exact ⟨hu, hnc.mono (by komega)⟩
+      · rintro c s1 s2 ⟨hlt, hpk1, n, hn, hkp, hc⟩ i1 i2 f12 r12
+        refine ⟨hlt, hasPending_noClear r12 (by komega) hpk1, ?_⟩
+        cases f12.same_or_verified c with
+        | inr v =>
+          obtain ⟨n2, h2, hv2⟩ := v
+          obtain ⟨d1, hp1, hk1, _⟩ := i1.kind c n hn
+          obtain ⟨d2, hp2, hk2, _⟩ := i2.kind c n2 h2
+          rw [hp1] at hp2; cases hp2
+          exact ⟨n2, h2, by rw [← hk2, hk1]; exact hkp, Or.inl hv2⟩
+        | inl e =>
+          refine ⟨n, by rw [e]; exact hn, hkp, ?_⟩
+          rcases hc with hc | hc
+          · exact Or.inl (by rw [hc, f12.epoch])
+          · exact Or.inr hc
+      · intro c hc
+        obtain ⟨hlt, n, o, hn, hkp, hm⟩ := mem_projsAbove.1 hc
+        exact ⟨(inv.down c n hn k o hm).1, by simp [hasPending, hk, hpk], n, hn, hkp, Or.inr ⟨o, hm⟩⟩
+  cases hr : queryEach qb (projsAbove p s k) s with
+  | error e => rw [hr] at hloop; simpa [Sat] using hloop
+  | ok s1 =>
+    rw [hr] at hloop
+    obtain ⟨i1, f1, r1, hver⟩ := hloop
+    simp only
+    -- `k` is still verified, with the same value
+    obtain ⟨n1, hn1, hv1⟩ := f1.verified ⟨nk, hk, hv⟩
+    obtain ⟨n1', hn1', hval1, _⟩ := f1.vkeep k nk hk hv
+    rw [hn1] at hn1'; cases hn1'
+    have e : clearPending s1 k = setNode s1 k { n1 with pendingBP := false } := by
+      simp [clearPending, hn1]
+    rw [e]
+    -- every projection that reads `k` is verified now, hence has a current observation of `k`
+    have hcur : ∀ z nz o, s1.nodes z = some nz → nz.kind = .projection → (k, o) ∈ nz.deps → n1.value = o := by
+      intro z nz o hz hkz hm
+      have hvz : Verified s1 z := by
+        cases f1.same_or_verified z with
+        | inr v => exact v
+        | inl e' =>
+          obtain ⟨dz, hpz, _⟩ := i1.kind z nz hz
+          have hlt : z < p.length := by
+            rw [List.getElem?_eq_some_iff] at hpz
+            obtain ⟨h, _⟩ := hpz; exact h
+          exact hver z (mem_projsAbove.2 ⟨hlt, nz, o, by rw [← e']; exact hz, hkz, hm⟩)
+      obtain ⟨nz', hz', hvz'⟩ := hvz
+      rw [hz] at hz'; cases hz'
+      have hs := i1.solid z nz hz hvz'
+      cases hs with
+      | mk _ n' hn' _ _ hval _ =>
+        rw [hz] at hn'; cases hn'
+        obtain ⟨nd, hnd, hvd, _⟩ := hval k o hm
+        rw [hn1] at hnd; cases hnd
+        exact hvd
+    refine ⟨i1.setSame (n' := { n1 with pendingBP := false }) hn1 rfl rfl rfl rfl rfl (Or.inl rfl)
+        (Or.inr ⟨rfl, hcur⟩),
+      f1.trans (Frame.setSame (n' := { n1 with pendingBP := false }) hn1 rfl rfl rfl rfl rfl hv1
+        (fun h => by cases h)), ?_⟩
+    intro x n hx hnx hp
+    obtain ⟨n', hn', hp'⟩ := r1 x n (by komega) hnx hp
+    have : x ≠ k := by komega
+    exact ⟨n', by simp only [setNode, if_neg this]; exact hn', hp'⟩
 
 theorem queryQ_badKey {p : Program} {s : St} (inv : Inv p s) {k : Key} (hk : p.length ≤ k) (f : Nat)
     (ped : Bool) : queryQ p (f + 1) ped k s = .error (.badKey k) := by
@@ -76,59 +209,140 @@ theorem queryQ_badKey {p : Program} {s : St} (inv : Inv p s) {k : Key} (hk : p.l
   simp [queryQ, hn, hp]
 
 /-- a request by a query caller with the default fuel: sound for every key -/
-theorem queryQ_fuelFor {p : Program} (wf : WF p) (np : NoProj p) (ped : Bool) (k : Key) {s : St}
+theorem queryQ_fuelFor {p : Program} (wf : WF p) (pf : NoProjOverProj p) (ped : Bool) (k : Key) {s : St}
     (inv : Inv p s) : Sat (queryQ p (fuelFor p) ped k s) (QPost p k s) := by
   by_cases hk : k < p.length
-  · exact queryQ_spec wf np (fuelFor p) ped k (by simp [fuelFor]; komega) s inv
+  · exact queryQ_spec wf pf (fuelFor p) ped k (by simp [fuelFor]; komega) s inv
   · rw [show fuelFor p = p.length + 1 from rfl, queryQ_badKey inv (by komega) p.length ped]
     simp [Sat]
 
+/-- stage 1: nothing reads a projection through a projection -/
+theorem projsAbove_proj_nil {p : Program} {s : St} (inv : Inv p s) {c : Key} {n : Node}
+    (hc : s.nodes c = some n) (hk : n.kind = .projection) : projsAbove p s c = [] := by
+  rw [List.eq_nil_iff_forall_not_mem]
+  intro z hz
+  obtain ⟨_, nz, o, hnz, hkz, hm⟩ := mem_projsAbove.1 hz
+  have := inv.pjFw z nz hnz hkz c o n hm hc
+  rw [hk] at this; cases this
+
+/-- the `BackwardProjectionPropagation` caller -/
+theorem queryB_spec {p : Program} (wf : WF p) (pf : NoProjOverProj p) (fuel : Nat) {c : Key} {s : St}
+    (inv : Inv p s) (hpre : PreB s c) : Sat (queryB p (fuel + 1) c s) (BPost p c s) := by
+  obtain ⟨n, hn, hkp, hc⟩ := hpre
+  obtain ⟨d, hp, hkd, _⟩ := inv.kind c n hn
+  have hlt : c < p.length := by
+    rw [List.getElem?_eq_some_iff] at hp
+    obtain ⟨h, _⟩ := hp; exact h
+  simp only [queryB, hn]
+  -- the request proper
+  have hfirst : Sat (if n.lastVerified = s.epoch then (Except.ok (n.value, s) : Except Err (Val × St))
+      else match p[c]? with
+        | none => .error (.badKey c)
+        | some d => execute (queryQ p (fuelFor p) true) c d s) (QPost p c s) := by
+    split
+    · rename_i hv
+      refine ⟨inv, Frame.refl p s, Touches.refl _ s, ?_, n, hn, rfl, hv⟩
+      obtain ⟨n', hn', hcur⟩ := solid_correct wf inv (inv.solid c n hn hv)
+      rw [hn] at hn'; cases hn'; exact hcur
+    · rename_i hv
+      rw [hp]
+      simp only
+      obtain ⟨f, o, hm, hpe⟩ : ∃ f o, (f, o) ∈ n.deps ∧ hasPending s f = true := by
+        rcases hc with h | h
+        · exact absurd h hv
+        · exact h
+      have hq : QSpec p (queryQ p (fuelFor p) true) c := fun d' hd' s' inv' =>
+        queryQ_spec wf pf (fuelFor p) true d' (by simp [fuelFor]; komega) s' inv'
+      have hnv : ¬ Verified s c := by
+        rintro ⟨n', hn', hv'⟩
+        rw [hn] at hn'; cases hn'; exact hv hv'
+      exact execute_spec wf pf hq hp (by rw [hkd, hkp]; decide) (by rw [hkd, hkp]; decide) inv
+        (Or.inr ⟨hnv, n, f, o, hn, hkp, hm, hpe⟩) (Or.inr ⟨n, f, o, hn, hkp, hv, hm, hpe⟩)
+  generalize (if n.lastVerified = s.epoch then (Except.ok (n.value, s) : Except Err (Val × St))
+      else match p[c]? with
+        | none => .error (.badKey c)
+        | some d => execute (queryQ p (fuelFor p) true) c d s) = r at hfirst ⊢
+  cases r with
+  | error e => simpa [Sat] using hfirst
+  | ok r =>
+    obtain ⟨v, s1⟩ := r
+    obtain ⟨i1, f1, t1, c1, n1, hn1, hv1, hver1⟩ := hfirst
+    simp only at i1 f1 t1 c1 hn1 hv1 hver1 ⊢
+    split
+    · rename_i hpend
+      have hkp1 : n1.kind = .projection := by
+        obtain ⟨d1, hp1, hk1, _⟩ := i1.kind c n1 hn1
+        rw [hp] at hp1; cases hp1
+        rw [← hk1, hkd]; exact hkp
+      have hbp := backProject_spec (qb := queryB p fuel) i1 hn1 hver1
+        (by simpa [hasPending, hn1] using hpend) (Or.inl (projsAbove_proj_nil i1 hn1 hkp1))
+      cases hr : backProject (queryB p fuel) p c s1 with
+      | error e => rw [hr] at hbp; simpa [Sat] using hbp
+      | ok s2 =>
+        rw [hr] at hbp
+        obtain ⟨i2, f2, r2⟩ := hbp
+        simp only
+        obtain ⟨n2, hn2, hv2⟩ := f2.verified ⟨n1, hn1, hver1⟩
+        obtain ⟨n2', hn2', hval2, _⟩ := f2.vkeep c n1 hn1 hver1
+        rw [hn2] at hn2'; cases hn2'
+        exact ⟨⟨i2, f1.trans f2, c1, n2, hn2, by rw [hval2, hv1], hv2⟩, (t1.noClear (c := c)).trans r2⟩
+    · exact ⟨⟨i1, f1, c1, n1, hn1, hv1, hver1⟩, t1.noClear⟩
+
 /-- the `RepairFirewall` caller -/
-theorem queryF_spec {p : Program} (wf : WF p) (np : NoProj p) :
-    ∀ fuel k, k < fuel → ∀ s, Inv p s → Sat (queryF p fuel k s) (QPost p k s) := by
+theorem queryF_spec {p : Program} (wf : WF p) (pf : NoProjOverProj p) :
+    ∀ fuel k, k < fuel → ∀ s, Inv p s → Sat (queryF p fuel k s) (UPost p k s) := by
   intro fuel
   induction fuel with
   | zero => intro k hk; cases hk
   | succ fuel ih =>
     intro k hk s inv
-    have hq : QSpec p (queryF p fuel) k := fun d hd s' inv' => ih d (by komega) s' inv'
     simp only [queryF]
-    have hrt := repairTfc_spec hq inv
+    have hrt := repairTfc_spec (qf := queryF p fuel) (k := k) (fun d hd s' inv' => ih d (by komega) s' inv') inv
     cases hr : repairTfc (queryF p fuel) k s with
     | error e => rw [hr] at hrt; simpa [Sat] using hrt
     | ok s1 =>
       rw [hr] at hrt
-      obtain ⟨i1, f1, t1⟩ := hrt
+      obtain ⟨i1, f1⟩ := hrt
       simp only
-      have hqq := queryQ_fuelFor wf np false k i1
+      have hqq := queryQ_fuelFor wf pf false k i1
       cases hr2 : queryQ p (fuelFor p) false k s1 with
       | error e => rw [hr2] at hqq; simpa [Sat] using hqq
       | ok r =>
         obtain ⟨v, s2⟩ := r
         rw [hr2] at hqq
-        have hpost : QPost p k s (v, s2) := by
-          obtain ⟨i2, f2, t2, c2, hnode⟩ := hqq
-          exact ⟨i2, f1.trans f2, (t1.mono (by komega)).trans t2, by rw [← f1.cur]; exact c2, hnode⟩
-        simp only
+        obtain ⟨i2, f2, _, c2, n2, hn2, hv2, hver2⟩ := hqq
+        simp only at i2 f2 c2 hn2 hv2 hver2 ⊢
         split
-        · rw [backProject_eq hpost.1]
-          exact clearPending_post hpost
-        · exact hpost
+        · rename_i hpend
+          have hbp := backProject_spec (qb := queryB p (fuelFor p)) i2 hn2 hver2
+            (by simpa [hasPending, hn2] using hpend)
+            (Or.inr (fun c s' i' hpre => queryB_spec wf pf p.length i' hpre))
+          cases hr3 : backProject (queryB p (fuelFor p)) p k s2 with
+          | error e => rw [hr3] at hbp; simpa [Sat] using hbp
+          | ok s3 =>
+            rw [hr3] at hbp
+            obtain ⟨i3, f3, _⟩ := hbp
+            simp only
+            obtain ⟨n3, hn3, hv3⟩ := f3.verified ⟨n2, hn2, hver2⟩
+            obtain ⟨n3', hn3', hval3, _⟩ := f3.vkeep k n2 hn2 hver2
+            rw [hn3] at hn3'; cases hn3'
+            exact ⟨i3, (f1.trans f2).trans f3, by rw [← f1.cur]; exact c2, n3, hn3, by rw [hval3, hv2], hv3⟩
+        · exact ⟨i2, f1.trans f2, by rw [← f1.cur]; exact c2, n2, hn2, hv2, hver2⟩
 
 /-- the user -/
-theorem queryU_spec {p : Program} (wf : WF p) (np : NoProj p) {fuel k : Nat} (hk : k < fuel)
-    {s : St} (inv : Inv p s) : Sat (queryU p fuel k s) (QPost p k s) := by
-  have hq : QSpec p (queryF p fuel) k := fun d hd s' inv' => queryF_spec wf np fuel d (by komega) s' inv'
+theorem queryU_spec {p : Program} (wf : WF p) (pf : NoProjOverProj p) {fuel k : Nat} (hk : k < fuel)
+    {s : St} (inv : Inv p s) : Sat (queryU p fuel k s) (UPost p k s) := by
   simp only [queryU]
-  have hrt := repairTfc_spec hq inv
+  have hrt := repairTfc_spec (qf := queryF p fuel) (k := k)
+    (fun d hd s' inv' => queryF_spec wf pf fuel d (by komega) s' inv') inv
   cases hr : repairTfc (queryF p fuel) k s with
   | error e => rw [hr] at hrt; simpa [Sat] using hrt
   | ok s1 =>
     rw [hr] at hrt
-    obtain ⟨i1, f1, t1⟩ := hrt
+    obtain ⟨i1, f1⟩ := hrt
     simp only
-    refine (queryQ_spec wf np fuel false k hk s1 i1).mono ?_
-    rintro ⟨v, s2⟩ ⟨i2, f2, t2, c2, hnode⟩
-    exact ⟨i2, f1.trans f2, (t1.mono (by komega)).trans t2, by rw [← f1.cur]; exact c2, hnode⟩
+    refine (queryQ_spec wf pf fuel false k hk s1 i1).mono ?_
+    rintro ⟨v, s2⟩ ⟨i2, f2, _, c2, hnode⟩
+    exact ⟨i2, f1.trans f2, by rw [← f1.cur]; exact c2, hnode⟩
 
 end Qbice.CoreFw
